@@ -1039,3 +1039,166 @@ def gen_union(seed):
     if h2 not in probes:
         probes.append(h2)
     return g.finish(probes or [h])
+
+
+# ---------------------------------------------------------------------------------------------
+# histories for C09 / C16
+# ---------------------------------------------------------------------------------------------
+
+REF_WEIGHTS = {"rename": 4, "select": 3, "mutate": 4, "arrange": 1.5, "filter": 1.5, "alias": 0.5, "group_by": 0.4, "ungroup": 0.4, "summarize": 0.4}
+
+
+def _probe_refs(g, h, limit=10):
+    """mutate(p_i=<old reference>, q_j=C.<name>) for references through every earlier handle."""
+    t = g.rr.env[h]
+    kw = []
+    seen = set()
+    items = [(hh, n, i) for hh, lst in g.refs.items() for n, i in lst if i in t.cols]
+    g.rng.shuffle(items)
+    for hh, n, i in items:
+        if (hh, i) in seen or len(kw) >= limit:
+            continue
+        seen.add((hh, i))
+        kw.append([f"p{len(kw)}", col(hh, n)])
+    for n, _i in g.rng.sample(t.vis, min(3, len(t.vis))):
+        kw.append([f"q{len(kw)}", cname(n)])
+    if not kw:
+        return None
+    return {"in": h, "out": g.new_handle(), "verb": "mutate", "kw": kw}
+
+
+def _dead_refs(g, h, limit=3):
+    t = g.rr.env[h]
+    dead = [(hh, n) for hh, lst in g.refs.items() for n, i in lst if i not in t.cols]
+    g.rng.shuffle(dead)
+    return dead[:limit]
+
+
+def gen_refs(seed):
+    """C09: references taken at any earlier point, used after renames / swaps / hiding / overwrites /
+    joins / alias(keep_col_refs=True) / collect()."""
+    g = ProgGen(seed)
+    rng = g.rng
+    h0 = g.add_table("t", cols=["k", "g", "x", "y", "s", "b"])
+    h = g.chain(h0, rng.randint(2, 7), REF_WEIGHTS, depth=1)
+    pol_only = False
+    r = rng.random()
+    if r < 0.35 and not g.rr.env[h].group:
+        kind, nr = g.tg.shape()
+        if kind == "tall":
+            kind, nr = "small_dups", 6
+        h1 = g.add_table("u", cols=["k", "g", "x", "s"], shape=kind, nrows=nr)
+        h1 = g.chain(h1, rng.randint(0, 2), {"rename": 2, "mutate": 1, "select": 1}, depth=1)
+        st = g.step_join(h, h1)
+        if st is not None and g.rr.env[h].n * g.rr.env[h1].n <= 20000 and g.try_step(st):
+            h = st["out"]
+    elif r < 0.5:
+        st = {"in": h, "out": g.new_handle(), "verb": "alias", "keep": True}
+        if g.try_step(st):
+            h = st["out"]
+    elif r < 0.62:
+        st = {"in": h, "out": g.new_handle(), "verb": "collect", "keep": True}
+        if g.try_step(st):
+            h = st["out"]
+            pol_only = True
+    h = g.chain(h, rng.randint(0, 3), REF_WEIGHTS, depth=1)
+    probes = []
+    if not g.rr.env[h].group or True:
+        st = _probe_refs(g, h)
+        if st is not None and g.try_step(st):
+            probes.append(st["out"])
+    # uses of references that are not derivable any more must be rejected
+    for hh, n in _dead_refs(g, h):
+        v = rng.choice(["mutate", "filter", "arrange", "select"])
+        if v == "mutate":
+            st = {"in": h, "out": g.new_handle(), "verb": "mutate", "kw": [["dead", col(hh, n)]]}
+        elif v == "filter":
+            st = {"in": h, "out": g.new_handle(), "verb": "filter", "preds": [fn("is_null", col(hh, n))]}
+        elif v == "arrange":
+            st = {"in": h, "out": g.new_handle(), "verb": "arrange", "by": [{"e": col(hh, n), "desc": False, "nl": True}]}
+        else:
+            st = {"in": h, "out": g.new_handle(), "verb": "select", "cols": [col(hh, n)]}
+        g.steps.append(st)  # deliberately not REF-accepted
+        g.features.add("dead_ref")
+    p = g.finish(probes or [h])
+    if pol_only:
+        p["meta"]["skip_backends"] = ["sqlite"]
+    p["meta"]["name_probe"] = h
+    return p
+
+
+def gen_reroot(seed):
+    """C16: prefix >> {alias(), alias(name), alias(keep), collect(), collect(keep=False), transfer} >> uses."""
+    g = ProgGen(seed)
+    rng = g.rng
+    h0 = g.add_table("t", cols=["k", "g", "x", "y", "s", "b"])
+    w = dict(REF_WEIGHTS)
+    w.update({"group_by": 0.8, "arrange": 1.0, "alias": 0.2, "summarize": 0.2})
+    h = g.chain(h0, rng.randint(0, 6), w, depth=1)
+    before = h
+    form = rng.choice(["alias", "alias_name", "alias_keep", "collect", "collect_nokeep", "transfer", "alias_twice"])
+    pol_only = form.startswith("collect")
+    if form in ("alias", "alias_name", "alias_keep", "alias_twice"):
+        st = {"in": h, "out": g.new_handle(), "verb": "alias", "keep": form == "alias_keep"}
+        if form == "alias_name":
+            st["name"] = "renamed"
+        if not g.try_step(st):
+            return g.finish([h])
+        h = st["out"]
+        if form == "alias_twice":
+            st = {"in": h, "out": g.new_handle(), "verb": "alias", "keep": rng.random() < 0.5}
+            if g.try_step(st):
+                h = st["out"]
+    elif form.startswith("collect"):
+        st = {"in": h, "out": g.new_handle(), "verb": "collect", "keep": form == "collect"}
+        if not g.try_step(st):
+            return g.finish([h])
+        h = st["out"]
+    else:
+        # transfer_col_references(new, old): `new` is an independent copy of the same data (alias), `old` the origin
+        if g.rr.env[h].group:
+            st = g.step_ungroup(h)
+            if g.try_step(st):
+                h = before = st["out"]
+        a = {"in": h, "out": g.new_handle(), "verb": "alias", "keep": False}
+        if not g.try_step(a):
+            return g.finish([h])
+        mid = g.chain(a["out"], rng.randint(0, 1), {"filter": 1, "arrange": 1}, depth=1)
+        st = {"in": mid, "out": g.new_handle(), "verb": "transfer", "ref": before}
+        if not g.try_step(st):
+            return g.finish([h])
+        h = st["out"]
+    after = h
+    probes = [before, after]
+    t = g.rr.env[after]
+    # grouping survives: summarize right after
+    if t.group and rng.random() < 0.7:
+        st = g.step_summarize(after)
+        if g.try_step(st):
+            probes.append(st["out"])
+    else:
+        st = _probe_refs(g, after)
+        if st is not None and g.try_step(st):
+            probes.append(st["out"])
+        for hh, n in _dead_refs(g, after, 2):
+            g.steps.append({"in": after, "out": g.new_handle(), "verb": "mutate", "kw": [["dead", col(hh, n)]]})
+            g.features.add("dead_ref")
+        # self join of the origin with the re-rooted table (only a plain alias makes it independent)
+        if form in ("alias", "alias_name", "alias_twice", "collect_nokeep") and not g.rr.env[before].group and not t.group and "k" in g.rr.env[before].names() and "k" in t.names():
+            if g.rr.env[before].n * t.n <= 20000:
+                j = {"in": before, "out": g.new_handle(), "verb": "join", "right": after, "how": rng.choice(["inner", "left"]),
+                     "on": [fn("eq", col(before, "k"), col(after, "k"))]}
+                if g.try_step(j):
+                    probes.append(j["out"])
+        elif form in ("alias_keep", "collect", "transfer") and not g.rr.env[before].group and not t.group and "k" in t.names():
+            # not independent: a join with the origin must be refused
+            g.steps.append({"in": before, "out": g.new_handle(), "verb": "join", "right": after, "how": "inner", "on_names": ["k"]})
+    h2 = g.chain(after, rng.randint(0, 2), REF_WEIGHTS, depth=1)
+    if h2 != after:
+        probes.append(h2)
+    p = g.finish(probes)
+    p["meta"]["form"] = form
+    p["meta"]["before_after"] = [before, after]
+    if pol_only:
+        p["meta"]["skip_backends"] = ["sqlite"]
+    return p
